@@ -274,7 +274,7 @@ def mulfactor_stage(ctx):
                     ctx.nontrivial.add(("mf-strict", key))
             chain_state["prev"] = (lu, tl)
 
-    ngames = 14 if ctx.quick else 120
+    ngames = 40 if ctx.quick else 200
     for _ in range(ngames):
         n = rng.choice([2, 3, 3, 4, 4] + ([5] if not ctx.quick or rng.random() < 0.3 else [3]))
         kind = rng.choice(["int", "dyadic"])
